@@ -13,6 +13,10 @@ def check(prog, rep):
     m, pubc, fsc = Z.zonal_funcs(prog, 'crosstab')
     allf = list({id(f): f for f in fs + fsc}.values())
     entry = lambda f: 'stats/crosstab[dask]'   # noqa
+    from ..sharedrules import check_value_truthiness
+    check_value_truthiness(prog, rep, 'Z3-truth', pub, 'stats')
+    check_value_truthiness(prog, rep, 'Z3-truth', pubc, 'crosstab')
+    rep.floor('Z3-truth', 2)
     Z.check_dask_tables(prog, rep, m, 'stats[dask]')
     Z.check_derived_stats(prog, rep, m, fs, 'stats[dask]')
     Z.check_global_ids(prog, rep, m, 'stats/crosstab[dask]')
